@@ -15,6 +15,7 @@ def run(ctx):
                     "correspondence: generated code (gen_deep_equal and not) compiled in one batch (harness/internal/batch) and driven by reflection vs tv_c18",
                     "oracle: structural equality valEq computed in Go by harness/cmd/c18/spec.go, tied line by line (op V) to the Lean specification Gen.DeepEq.valEq"]
     ctx.assumptions += ["the two objects compared are disjoint object graphs (built independently); identity x.DeepEqual(x) and a shallow copy are modelled separately (ops EI / EA)",
+                        "maps whose KEY type is a struct without fields are emptied before use (counted as avoided.map-with-zero-size-struct-key): Go leaves equality of pointers to distinct zero-size objects unspecified, so whether the key of a deep copy is found is the runtime's choice",
                         "Go map iteration order does not matter (every comparison is pure; proved panic-free)",
                         "reflect.DeepEqual (validate_set without gen_deep_equal) = Gen.goEq; set elements holding non-empty struct-keyed maps are not duplicated in those units",
                         "apache/thrift v0.13.0 TBinaryProtocol = Core.Wire primitives (as C02); Go reflect in the driver"]
